@@ -52,7 +52,7 @@ def static_job(job):
         try:
             G = Graph(nodes=dict(nodes), supervisor=nodes[cfg["sup"]], graphs_raw=g_raw, supergraph=compiled.MODES[mode], prune=prune,
                       progress_bar=False, **kw)
-        except (KeyError, NetworkXUnfeasible) as e:
+        except (KeyError, NetworkXUnfeasible, AssertionError) as e:  # rex or the external supergraph library refuse to compile the instance
             # Timings.get_buffer_sizes raises KeyError when a node kind is absent from the supergraph although a present kind has
             # an input from it (all its window entries are -1): compilation of such a graph fails (outside the properties, DESIGN 10.4)
             out.setdefault("notes", []).append(f"{mode}/{prune}: Graph() raised {type(e).__name__} {e}")
@@ -106,7 +106,7 @@ def run_job(job):
         try:
             G = Graph(nodes=dict(nodes), supervisor=nodes[cfg["sup"]], graphs_raw=g_raw, supergraph=compiled.MODES[mode], prune=prune,
                       progress_bar=False, **kw)
-        except (KeyError, NetworkXUnfeasible) as e:
+        except (KeyError, NetworkXUnfeasible, AssertionError) as e:  # rex or the external supergraph library refuse to compile the instance
             out.setdefault("notes", []).append(f"{mode}/{prune}: Graph() raised {type(e).__name__} {e} (DESIGN 10.4)")
             continue
         refused = _init_refused(G)
@@ -194,7 +194,10 @@ def api_job(job):
     n_eps = next(iter(g_raw.vertices.values())).seq.shape[0]
     mode, prune = job.get("mode", "mcs"), job.get("prune", True)
     nodes = gen.build_nodes(cfg, log=True)
-    G = Graph(nodes=dict(nodes), supervisor=nodes[cfg["sup"]], graphs_raw=g_raw, supergraph=compiled.MODES[mode], prune=prune, progress_bar=False)
+    try:
+        G = Graph(nodes=dict(nodes), supervisor=nodes[cfg["sup"]], graphs_raw=g_raw, supergraph=compiled.MODES[mode], prune=prune, progress_bar=False)
+    except (KeyError, NetworkXUnfeasible, AssertionError) as e:   # rex or the external supergraph library refuse to compile the instance
+        return dict(static=[], runs=[], digests=[], checks=[], P=0, n_eps=n_eps, skipped=f"Graph() raised {type(e).__name__} {e} (DESIGN 10.4)")
     P = G.max_steps + 1
     out = dict(static=[], runs=[], digests=[], checks=[], P=P, n_eps=n_eps)
     refused = _init_refused(G)
@@ -278,7 +281,11 @@ def buffer_job(job):
     g_raw, eps_async, h_async = _graphs_for(job)
     out = dict(static=[], runs=[], checks=[])
     nodes = gen.build_nodes(cfg, log=True)
-    G0 = Graph(nodes=dict(nodes), supervisor=nodes[cfg["sup"]], graphs_raw=g_raw, progress_bar=False)
+    try:
+        G0 = Graph(nodes=dict(nodes), supervisor=nodes[cfg["sup"]], graphs_raw=g_raw, progress_bar=False)
+    except (KeyError, NetworkXUnfeasible, AssertionError) as e:
+        out["skipped"] = f"Graph() raised {type(e).__name__} {e} (DESIGN 10.4)"
+        return out
     mins = {k: int(max(v) if len(v) > 0 else 1) for k, v in G0.timings.get_buffer_sizes().items()}
     big = [k for k, v in mins.items() if v > 1]
     variants = [({k: v + d for k, v in mins.items()}, True) for d in (0, 1, 2)]
@@ -356,7 +363,7 @@ def c10_e2e_job(job):
             g_raw = generate_graphs(nodes, ts_max=job["ts_max"] / probes.GRID, rng=jax.random.PRNGKey(job.get("seed", 0)), num_episodes=1)
             try:
                 G = Graph(nodes=dict(nodes), supervisor=nodes[c_["sup"]], graphs_raw=g_raw, supergraph=compiled.MODES[mode], prune=prune, progress_bar=False)
-            except (KeyError, NetworkXUnfeasible) as e:
+            except (KeyError, NetworkXUnfeasible, AssertionError) as e:  # rex or the external supergraph library refuse to compile the instance
                 out["notes"].append(f"{tag}: Graph() raised {type(e).__name__} {e} (DESIGN 10.4)")
                 res = None
                 break
